@@ -48,6 +48,11 @@ def run(ctx: Ctx, env):
         raise AnalysisError("odata_query.rewrite.AliasRewriter not found")
     ci = repo.classes[REWRITER]
     rm = ci.module
+    # nodes are found by equality (dict lookup / `==`): structural equality over all fields is a precondition (C16's schema rules)
+    from .c16 import check_node_schema
+    from .c04 import _SubCtx
+    check_node_schema(_SubCtx(ctx, only={"R5.frozen-dataclass", "R5.generated-eq", "R5.no-custom-eq", "R5.field-compares", "R5.constructed-as-declared"},
+                              rename=lambda r: "R0.nodes-compare-structurally-" + r.split(".", 1)[1]), env)
     ctx.check(TRANSFORMER in repo.mro(REWRITER), "R4.is-transformer", "AliasRewriter", "does not derive from NodeTransformer",
               rm.loc(ci.node))
     for name in ("visit", "generic_visit"):
